@@ -16,7 +16,7 @@ _scratch = None
 def scratch():
     global _scratch
     if _scratch is None:
-        _scratch = "/var/tmp/verif.%d" % os.getpid()
+        _scratch = "/var/tmp/.bbchk-%d-%06x" % (os.getpid(), random.randrange(1 << 24))
         os.makedirs(_scratch, exist_ok=True)
         atexit.register(lambda: shutil.rmtree(_scratch, ignore_errors=True))
     return _scratch
